@@ -264,14 +264,28 @@ def rule_expiry(ctx, res):
     nloop = 0
     for p in rs.paths:
         dr = [e for e in p.effects if e[0] == 'call' and e[1] and e[1].endswith('::drain')]
+        if not dr and p.end == 'loop' and not any(x[0] == 'call' and x[1] and x[1].split('::')[-1] in ('retain', 'remove', 'push', 'clear', 'insert') for x in p.effects):
+            continue      # an iteration of a counting loop that precedes the drain (judged through lib.prefix_count below)
         if len(dr) != 1:
             okd = False
             continue
         e = dr[0]
         rng = e[2][1]
-        good = is_field_of_param(e[2][0], 'self', 'expires') and rng[0] == 'agg' and term_int(rng[2].get('start')) == 0
+        good = is_field_of_param(e[2][0], 'self', 'expires') and rng[0] == 'agg' and (term_int(rng[2].get('start')) == 0 or (rng[1].startswith('std::ops::RangeTo::') and rng[2].get('start') is None))
         end = rng[2].get('end') if good else None
-        if good:
+        if good and isinstance(strip_transparent(end), tuple) and strip_transparent(end)[0] == 'loopvar':
+            # the prefix length counted by a loop: `for e in &expires { if !e.is_expired(now) { break } n += 1 }`
+            try:
+                pc = lib.prefix_count(rs, strip_transparent(end))
+                def expired_test(lits, want):
+                    ls = [literal(c) for c in lits]
+                    return len(ls) == 1 and ls[0][0] == 'bool' and ls[0][3] is want and isinstance(ls[0][1], tuple) and ls[0][1][0] == 'call' and ls[0][1][1] == 'storage::ItemExpiration::is_expired' \
+                        and pc['is_elem'](ls[0][1][2][0]) and is_param(strip_transparent(ls[0][1][2][1]), 'curr_time')
+                good = (is_field_of_param(pc['src'], 'self', 'expires') or field_chain(strip_transparent(pc['src']))[-1:] == ['expires']) \
+                    and all(expired_test(l, True) for l in pc['counting']) and pc['leaving'] and all(expired_test(l, False) for l in pc['leaving'])
+            except Lost:
+                good = False
+        elif good:
             pl = c05.pipeline(end)
             names = [x[0] for x in pl]
             # count(take_while(iter(expires), is_expired(curr_time)))
@@ -291,7 +305,18 @@ def rule_expiry(ctx, res):
                     okd = False
                 else:
                     r = closure_ret(ctx, res, rt[0][2][1])
-                    if not (r is not None and r[0] == 'call' and lib.cmp_kind_of_call(r[1]) == 'ne' and find_calls(r, 'AnnounceItem::expiration') and 'item_expiration' in fmt(r)):
+                    # keep what differs from the drained entry: `a.expiration() != entry` / `&a.expiration != entry`
+                    good_r = False
+                    if r is not None and r[0] == 'call' and lib.cmp_kind_of_call(r[1]) == 'ne':
+                        x, y = strip_transparent(r[2][0]), strip_transparent(r[2][1])
+                        for el, cap in ((x, y), (y, x)):
+                            ec = find_calls(el, 'AnnounceItem::expiration')
+                            base = strip_transparent(ec[0][2][0]) if ec else el
+                            el_ok = (bool(ec) or field_chain(el)[-1:] == ['expiration']) and is_param(root_of(base)) and root_of(base)[1] == 2
+                            cap_ok = is_param(root_of(cap)) and root_of(cap)[1] == 1
+                            if el_ok and cap_ok:
+                                good_r = True
+                    if not good_r:
                         okd = False
                 emp = [literal(c)[3] for c in p.conds if literal(c)[0] == 'bool' and literal(c)[1][0] == 'call' and literal(c)[1][1].endswith('::is_empty')]
                 rem = [x for x in p.effects if x[0] == 'call' and x[1] and x[1].endswith('::remove') and is_field_of_param(x[2][0], 'self', 'storage')]
@@ -303,8 +328,8 @@ def rule_expiry(ctx, res):
 def rule_who(ctx, res):
     """methods applied to the queue / map / lists; no writer outside storage.rs"""
     allowed = {
-        'expires': {'push', 'retain', 'drain', 'len', 'deref', 'iter'},
-        'storage': {'get', 'get_mut', 'entry', 'remove'},
+        'expires': {'push', 'retain', 'drain', 'len', 'deref', 'iter', 'into_iter', 'next', 'is_empty', 'first', 'get', 'as_slice'},   # writers: push / retain / drain only
+        'storage': {'get', 'get_mut', 'entry', 'remove', 'contains_key', 'len', 'is_empty'},
     }
     seen = {'expires': set(), 'storage': set()}
     for body in ctx.f.body_list:
